@@ -548,7 +548,11 @@ class StateEngine(object):
         https://docs.aws.amazon.com/step-functions/latest/dg/limits.html
         If so then we fail the execution.
         """
-        if len(output_as_string) > MAX_DATA_LENGTH:
+        # json.dumps() escapes every non-ASCII character as \uXXXX, so the
+        # length of output_as_string overstates the number of characters of
+        # the output: when it is over the limit count the characters as such.
+        if (len(output_as_string) > MAX_DATA_LENGTH and
+                len(json.dumps(data, ensure_ascii=False)) > MAX_DATA_LENGTH):
             error_message = ("{} an error occurred while executing the state "
                              "\"{}\": A result with a size exceeding the maximum "
                              "number of characters service limit "
